@@ -32,30 +32,19 @@ def vec256():
     return [dict(zip(names, v)) for v in itertools.product([False, True], repeat=8)]
 
 
-def is_f02a(case):
-    """FUNC shapes whose middle function ends in a plain call *and* contains another call:
-    under tail_call_optimization these are the subject of finding F-02a."""
-    tag = case.get("tag", "")
-    if tag.startswith("chain2/"):
-        rk = tag.split("/")[2]
-        return rk not in F.HASRET
-    return False
-
-
 def build_cases(tier):
     cases = []
     v32 = vec32()
     v64 = v32 + [dict(v, _pragma=True) for v in v32]
-    no_tail = [v for v in v64 if not v["tail_call_optimization"]]
-    tail = [v for v in v64 if v["tail_call_optimization"]]
     funcs = F.func(tier)
     for c in funcs:
-        if is_f02a(c):
-            a = dict(c, variants=no_tail)
-            b = dict(c, variants=tail, family="W-F02a")
-            cases += [a, b]
-        else:
-            cases.append(dict(c, variants=v64))
+        cases += common.split_call_case(c, v64)
+    # call mechanics shapes (tail position, loops, conditional calls, 0..5 arguments): every 4th (quick) / 2nd program
+    f2 = F.func2(tier)
+    for c in f2[:: (4 if tier == "quick" else 2)]:
+        cases += common.split_call_case(c, v64)
+    for c in F.func3(tier)[:: (4 if tier == "quick" else 1)]:
+        cases.append(dict(c, variants=v64))
     for c in F.w_tailcall():
         cases.append(dict(c, variants=[v for v in v32 if not v["inline_functions"]]))
     for c in F.lists(tier, lens=range(2, 6)):
@@ -69,7 +58,7 @@ def build_cases(tier):
     for c in F.dev(tier):
         cases.append(dict(c, variants=v64 if c["src"].startswith("def ") or "\ndef " in c["src"] else cv))
     # all 2^8 vectors (cosmetic options crossed in) on a sub-family
-    sub = [c for c in funcs if not is_f02a(c)]
+    sub = [c for c in funcs if not common.is_f02a(c)]
     sub = sub[:: (10 if tier == "quick" else 3)]
     for c in sub:
         cases.append(dict(c, family="FUNC-256", variants=vec256(), cap=48))
